@@ -122,8 +122,8 @@ theorem eviction_restarts :
       ((s.table 0).isNone, (s.ent 0).finished, (s.ent 0).sock, s.mu == .free, s.panic)) = some (true, true, false, true, false) ∧
     -- a later datagram of the same client starts a new working session (entry 1): established, deadline armed, queue drained
     ((run cfgNatGeneric State.init (evictTrace ++ establish 1)).map fun s =>
-      (s.table 0 == some 1, (s.ent 1).ipc == .dRead, (s.ent 1).upc == .recv, (s.ent 1).dl == .future, (s.ent 1).q, (s.ent 1).sock, s.panic)) =
-      some (true, true, true, true, 0, true, false) := by
+      (s.table 0 == some 1 && (s.ent 1).ipc == .dRead && (s.ent 1).upc == .recv && (s.ent 1).dl == .future &&
+       (s.ent 1).q == 0 && (s.ent 1).sock && !s.panic)) = some true := by
   constructor <;> decide
 
 -- the hypotheses of the theorems are satisfiable: reachable states with Stop past its pass and a session in its downlink loop
